@@ -100,9 +100,9 @@ func (rl *ReplicaLeader) selfInspection(stream pb.ApiService_SyncServer) error {
 	// check channel run id
 	channelRunId := rl.channel.RunId()
 	if !slices.Contains(runIds, channelRunId) || runIds[0] != channelRunId {
-		rl.logger.Warnf("leader has not a proper run id, wait a moment : %v, %s", runIds, channelRunId)
-		//err := errors.Join(ErrRestart, fmt.Errorf("channel run id is stale : input_run_ids(%v), channel_run_id(%s)", runIds, channelRunId))
-		return rl.handleError(stream, nil, pb.SyncResponse_CLEAR, "wait a moment", "")
+		// the refusal ends this exchange : Handle must not go on and serve (or offer a hand-over from) a cache kept under a stale id
+		err := fmt.Errorf("leader has not a proper run id, wait a moment : input_run_ids(%v), channel_run_id(%s)", runIds, channelRunId)
+		return rl.handleError(stream, err, pb.SyncResponse_CLEAR, "wait a moment", "")
 	}
 	return nil
 }
@@ -352,11 +352,12 @@ func (rf *ReplicaFollower) handleResp(err error, resp *pb.SyncResponse, args ...
 		} else if resp.GetCode() == pb.SyncResponse_HANDOVER {
 			err = fmt.Errorf("takeover leadership : %w, leader(%d)", ErrLeaderTakeover, resp.GetOffset())
 		} else if resp.GetCode() == pb.SyncResponse_CLEAR {
+			// a refusal is never a meta or data frame, whether or not a run id was given
 			if len(args) == 1 {
 				runId := args[0].(string)
 				rf.channel.DelRunId(runId)
-				err = fmt.Errorf("code is error : %s", resp.GetMeta().GetMsg())
 			}
+			err = fmt.Errorf("code is clear : %s", resp.GetMeta().GetMsg())
 			rf.wait.Sleep(1 * time.Second)
 		}
 	}
@@ -429,11 +430,11 @@ func (rf *ReplicaFollower) metaSync(sp StartPoint, cli pb.ApiServiceClient) (pb.
 		Node:   &pb.Node{RunId: sp.RunId, Address: rf.inputAddress},
 		Offset: sp.Offset,
 	})
-	if err = rf.handleResp(err, nil, sp.RunId); err != nil {
+	if err = rf.handleResp(err, nil); err != nil {
 		return nil, nil, err
 	}
 	resp, err := stream.Recv()
-	if err = rf.handleResp(err, resp); err != nil {
+	if err = rf.handleResp(err, resp, sp.RunId); err != nil {
 		return nil, nil, err
 	}
 	return stream, resp, nil
